@@ -104,6 +104,17 @@ IOrS(S) == Do([k |-> "ior_set", v |-> S], lst, st \cup S, ilst, SetterSet(ist \c
 AddS(x) == Do([k |-> "add", x |-> x], lst, st \cup {x}, ilst, ist \cup {x}, <<>>, {x})
 UpdateS(S) == Do([k |-> "update", v |-> S], lst, st \cup S, ilst, ist \cup S, <<>>, IF UnhookedExtend THEN {} ELSE S)
 
+\* removals: the data follows Python semantics; relations are never retracted (the fact base is monotone), nothing is recorded
+RemoveAt(s, i) == SubSeq(s, 1, i - 1) \o SubSeq(s, i + 1, Len(s))                    \* 1-based position
+FirstPos(s, x) == CHOOSE i \in DOMAIN s : s[i] = x /\ \A j \in 1..(i - 1) : s[j] # x
+RemoveL(x) == x \in SeqSet(lst) /\ x \in SeqSet(ilst)
+              /\ Do([k |-> "remove", x |-> x], RemoveAt(lst, FirstPos(lst, x)), st, RemoveAt(ilst, FirstPos(ilst, x)), ist, <<>>, {})
+PopL == lst # <<>> /\ ilst # <<>> /\ Do([k |-> "pop"], RemoveAt(lst, Len(lst)), st, RemoveAt(ilst, Len(ilst)), ist, <<>>, {})
+DelItemL(i) == i < Len(lst) /\ i < Len(ilst) /\ Do([k |-> "delitem", i |-> i], RemoveAt(lst, i + 1), st, RemoveAt(ilst, i + 1), ist, <<>>, {})
+ClearL == lst # <<>> /\ Do([k |-> "clear_list"], <<>>, st, <<>>, ist, <<>>, {})
+DiscardS(x) == Do([k |-> "discard", x |-> x], lst, st \ {x}, ilst, ist \ {x}, <<>>, {})
+ClearS == st # {} /\ Do([k |-> "clear_set"], lst, {}, ilst, {}, <<>>, {})
+
 \* the behaviour is complete: a single successor, so that generator configs print each behaviour once even in
 \* simulation mode (TLC evaluates constraints/invariants on every candidate successor)
 Finish == steps = MaxSteps /\ ~done /\ done' = TRUE /\ UNCHANGED <<lst, st, facts, ilst, ist, ifacts, steps, h, cache>>
@@ -115,6 +126,9 @@ Write == /\ steps < MaxSteps
             \/ \E i \in 0..MaxLen, j \in 0..MaxLen, s \in Seqs : SetSliceL(i, j, s)
             \/ \E S \in Sets : AssignS(S) \/ IOrS(S) \/ UpdateS(S)
             \/ SelfAssignS
+            \/ \E x \in Elems : RemoveL(x) \/ DiscardS(x)
+            \/ PopL \/ ClearL \/ ClearS
+            \/ \E i \in 0..MaxLen : DelItemL(i)
             \/ \E kind \in {"reversed", "gen", "chain"}, x \in Elems : (kind = "chain" \/ x = "b") /\ (AssignViewL(kind, x) \/ AssignViewS(kind, x))
             \/ Replace
 Next == Finish \/ Write
